@@ -208,6 +208,7 @@ structure RI where
   timeout : Option Nat
   max : Option Nat
   got : Nat := 0
+  started : Bool := false      -- at least one chunk has been yielded
   deriving Repr, Inhabited
 
 inductive Step where
@@ -232,27 +233,28 @@ def riStart (max : Option Nat) (timeout : Option Nat) (s : St) : RI :=
 
 /-- one resumption of the `read_iter` generator -/
 def riNext (ri : RI) (s : St) : Step × RI × St :=
-  if ri.max == some ri.got && ri.got != 0 then (.done, ri, s) else
+  if ri.started && ri.max == some ri.got then (.done, ri, s) else
   match remaining ri.timeout ri.t0 s.now with
   | none => (.err .timeout, ri, s)
   | some rem =>
     match ioRead (ri.maxRead s.chunk) rem s with
     | (.error e, s) => (.err e, ri, s)
     | (.ok new, s) =>
-      let ri := { ri with got := ri.got + new.length }
+      let ri := { ri with got := ri.got + new.length, started := true }
       let s := writeStream new s
       match check new s with
       | (.error e, s) => (.err e, ri, s)
       | (.ok _, s) => (.chunk new, ri, s)
 
-/-- drain a `read_iter` completely, collecting the chunks -/
-def riAll : Nat → RI → St → Bytes → Except Exc Bytes × Bytes × St
-  | 0, _, s, acc => (.error .fuel, acc, s)
-  | f + 1, ri, s, acc =>
+/-- pull at most `k` chunks (`none`: until exhausted) out of a `read_iter`, then drop it -/
+def riTake : Nat → Option Nat → RI → St → List Bytes → (List Bytes × Option Exc) × St
+  | 0, _, _, s, acc => ((acc, some .fuel), s)
+  | _ + 1, some 0, _, s, acc => ((acc, none), s)
+  | f + 1, k, ri, s, acc =>
     match riNext ri s with
-    | (.done, _, s) => (.ok acc, acc, s)
-    | (.err e, _, s) => (.error e, acc, s)
-    | (.chunk b, ri, s) => riAll f ri s (acc ++ b)
+    | (.done, _, s) => ((acc, none), s)
+    | (.err e, _, s) => ((acc, some e), s)
+    | (.chunk b, ri, s) => riTake f (k.map (· - 1)) ri s (acc ++ [b])
 
 def bytesLeft (s : St) : Nat := (s.script.map (·.data.length)).sum
 
@@ -272,9 +274,10 @@ def read (n : Option Nat) (timeout : Option Nat) (s : St) : Res Bytes :=
         -- `read_iter(timeout=0.0)` raises TimeoutError at once; it is swallowed
         (.ok buf, s)
   | some n =>
-    match riAll (fuelFor s) (riStart (some n) timeout s) s [] with
-    | (.error e, _, s) => (.error e, s)
-    | (.ok buf, _, s) => if buf.length == n then (.ok buf, s) else (.error .assertion, s)
+    match riTake (fuelFor s) none (riStart (some n) timeout s) s [] with
+    | ((_, some e), s) => (.error e, s)
+    | ((cs, none), s) =>
+      if cs.flatten.length == n then (.ok cs.flatten, s) else (.error .assertion, s)
 
 /-! ### writing -/
 
@@ -421,9 +424,9 @@ def readUntilPrompt (prompt : Option Pat) (timeout : Option Nat) (s : St) :
 
 /-- `Channel.read_until_timeout(timeout)` -/
 def readUntilTimeout (timeout : Option Nat) (s : St) : Res Bytes :=
-  match riAll (fuelFor s) (riStart none timeout s) s [] with
-  | (.error .timeout, acc, s) => (.ok acc, s)
-  | (.error e, _, s) => (.error e, s)
-  | (.ok acc, _, s) => (.ok acc, s)
+  match riTake (fuelFor s) none (riStart none timeout s) s [] with
+  | ((cs, some .timeout), s) => (.ok cs.flatten, s)
+  | ((_, some e), s) => (.error e, s)
+  | ((cs, none), s) => (.ok cs.flatten, s)
 
 end Chan
